@@ -64,7 +64,10 @@ def walk(case, on_step):
                 else:
                     continue
                 info["draws"] = len(rec.draws) - info["draws_before"]
-                bad = on_step(step, op, ret, obj, info)
+                try:
+                    bad = on_step(step, op, ret, obj, info)
+                except Exception as exc:  # noqa: BLE001 - raised by the library while the oracle observes it
+                    bad = f"step {step} after {op[0]}{op[1:]!r}: observing the filter (check / table) raised {type(exc).__name__}: {exc}"
                 if bad:
                     return bad, rec.exhausted
             return None, rec.exhausted
